@@ -443,6 +443,8 @@ func c17Route[V univers.Version[V], VR univers.VersionRange[V]](e univers.Ecosys
 	vv.Reached()
 	vv.Assume(err == nil)
 	vv.Assume(!vv.Known("KF-C02-x-in-bound", c02NpmX(e.Name(), a)))
+	// PEP 440 default: a pre-release probe is excluded unless the range names a pre-release (C04's subject)
+	vv.Assume(!(scheme == "pypi" && (pepIsPre(v) || pepIsPre(a))))
 	vv.Assert(ok == opSem(op, pv.Compare(pa)), "C17: scheme is not evaluated with its ecosystem's order")
 }
 
